@@ -9,6 +9,7 @@ import Hive.Model.OMapLine
 import Hive.Gen.C11_Skel
 import Hive.Gen.C11_Stmts
 import Hive.Proofs.OMapWidth
+import Hive.Proofs.OMapMethods
 /-!
 # C11 — OrderedMap and Set: insertion-ordered model, exact diffs, no deadlock
 
@@ -915,5 +916,195 @@ theorem C11_skeleton_type_ShrinkingMap : skel_type_ShrinkingMap =
 open Hive.Gen.C11Skel in
 theorem C11_skeleton_type_Options : skel_type_Options =
     ["struct", "shrinkingThresholdRatio float32", "shrinkingThresholdCount int"] := by decide
+
+/-! ### the read side of `ds.Set` and the codec (every method of the regenerated method set has a skeleton)
+
+`HasAll`/`Equals`/`Intersect`/`Filter`/`ToSlice`/`Clone`/`String`/`Iterator` go through `readableSet.ForEach` →
+`OrderedMap.ForEach` (lock released around every callback), `Is` = `Size` + `Has` (two separate locked reads), `Encode` =
+`Size` + `ForEach`, `Decode` = one `Set` per entry; none of them holds a lock while calling another method. -/
+
+open Hive.Gen.C11Skel in
+theorem C11_skeleton_set_ReadOnly : skel_set_ReadOnly =
+    ["return"] := by decide
+
+open Hive.Gen.C11Skel in
+theorem C11_skeleton_readableSet_HasAll : skel_readableSet_HasAll =
+    ["if{", "return", "}if", "func{", "call r.Has", "if{", "return", "}if", "return", "}func",
+     "call other.ForEach", "return"] := by decide
+
+open Hive.Gen.C11Skel in
+theorem C11_skeleton_readableSet_ForEach : skel_readableSet_ForEach =
+    ["if{", "return", "}if", "func{", "if{", "return", "}if", "return", "}func", "call r.OrderedMap.ForEach",
+     "return"] := by decide
+
+open Hive.Gen.C11Skel in
+theorem C11_skeleton_readableSet_Range : skel_readableSet_Range =
+    ["if{", "func{", "return", "}func", "call r.OrderedMap.ForEach", "}if"] := by decide
+
+open Hive.Gen.C11Skel in
+theorem C11_skeleton_readableSet_Intersect : skel_readableSet_Intersect =
+    ["call r.Filter", "return"] := by decide
+
+open Hive.Gen.C11Skel in
+theorem C11_skeleton_readableSet_Filter : skel_readableSet_Filter =
+    ["func{", "if{", "call filtered.Add", "}if", "return", "}func", "call r.ForEach", "return"] := by decide
+
+open Hive.Gen.C11Skel in
+theorem C11_skeleton_readableSet_Equals : skel_readableSet_Equals =
+    ["call r.Size", "call other.Size", "call r.HasAll", "return"] := by decide
+
+open Hive.Gen.C11Skel in
+theorem C11_skeleton_readableSet_Any : skel_readableSet_Any =
+    ["if{", "func{", "return", "}func", "call r.OrderedMap.ForEach", "}if", "return"] := by decide
+
+open Hive.Gen.C11Skel in
+theorem C11_skeleton_readableSet_Is : skel_readableSet_Is =
+    ["call r.Size", "call r.Has", "return"] := by decide
+
+open Hive.Gen.C11Skel in
+theorem C11_skeleton_readableSet_Iterator : skel_readableSet_Iterator =
+    ["call r.ToSlice", "call walker.New[T](false).PushAll", "return"] := by decide
+
+open Hive.Gen.C11Skel in
+theorem C11_skeleton_readableSet_Clone : skel_readableSet_Clone =
+    ["call NewSet[T]().AddAll", "return"] := by decide
+
+open Hive.Gen.C11Skel in
+theorem C11_skeleton_readableSet_ToSlice : skel_readableSet_ToSlice =
+    ["if{", "func{", "return", "}func", "call r.ForEach", "}if", "return"] := by decide
+
+open Hive.Gen.C11Skel in
+theorem C11_skeleton_readableSet_String : skel_readableSet_String =
+    ["func{", "return", "}func", "call r.ForEach", "return"] := by decide
+
+open Hive.Gen.C11Skel in
+theorem C11_skeleton_SerializableOrderedMap_Encode : skel_SerializableOrderedMap_Encode =
+    ["call o.Size", "func{", "return", "}func", "func{", "helper Encode", "if{", "func{", "return", "}func", "}if",
+     "func{", "return", "}func", "helper Encode", "if{", "func{", "return", "}func", "}if", "func{", "return",
+     "}func", "return", "}func", "call o.ForEach", "return"] := by decide
+
+open Hive.Gen.C11Skel in
+theorem C11_skeleton_SerializableOrderedMap_Decode : skel_SerializableOrderedMap_Decode =
+    ["helper Decode", "if{", "return", "}if", "for{", "helper Decode", "if{", "return", "}if", "if{", "return",
+     "}if", "helper Decode", "if{", "return", "}if", "call o.Set", "}for", "return"] := by decide
+
+/-! ## regenerated method sets: which declaration a selector reaches through the embedding chain
+
+`Hive/Gen/C11_Methods.lean` is regenerated on every run by `harness/c11/methodset` (go/ast over `ds/set_impl.go`,
+`ds/serializableorderedmap`, `ds/orderedmap`: `set` embeds `*readableSet` embeds `*SerializableOrderedMap` embeds
+`*OrderedMap`).  Go resolves `s.Delete(x)` to the shallowest declaration: were `set.Delete` removed (or renamed), every
+caller would silently get the promoted `OrderedMap.Delete`, which does not take `applyMutex` (seeded C11-r6-2) — the
+program still compiles; the entry `("Delete", "set", 0)` below becomes `("Delete", "OrderedMap", 3)`.  Each tuple is
+(method, declaring type, embedding depth); `hidden_*` are the deeper declarations that a shallower one overrides. -/
+
+open Hive.Gen.C11Methods in
+theorem C11_methodset_set : methods_set =
+    [("Add", "set", 0), ("AddAll", "set", 0), ("Any", "readableSet", 1), ("Apply", "set", 0),
+     ("Clear", "OrderedMap", 3), ("Clone", "readableSet", 1), ("Compute", "set", 0),
+     ("Decode", "SerializableOrderedMap", 2), ("Delete", "set", 0), ("DeleteAll", "set", 0),
+     ("Encode", "SerializableOrderedMap", 2), ("Equals", "readableSet", 1), ("Filter", "readableSet", 1),
+     ("ForEach", "readableSet", 1), ("ForEachReverse", "OrderedMap", 3), ("Get", "OrderedMap", 3),
+     ("Has", "OrderedMap", 3), ("HasAll", "readableSet", 1), ("Head", "OrderedMap", 3),
+     ("Intersect", "readableSet", 1), ("Is", "readableSet", 1), ("IsEmpty", "OrderedMap", 3),
+     ("Iterator", "readableSet", 1), ("Range", "readableSet", 1), ("ReadOnly", "set", 0), ("Replace", "set", 0),
+     ("Set", "OrderedMap", 3), ("Size", "OrderedMap", 3), ("String", "readableSet", 1), ("Tail", "OrderedMap", 3),
+     ("ToSlice", "readableSet", 1), ("apply", "set", 0)] ∧
+    ambiguous_set = [] ∧ unresolved_set = [] ∧ hidden_set = ["OrderedMap.Clone@3", "OrderedMap.Delete@3", "OrderedMap.ForEach@3"] := by decide
+
+open Hive.Gen.C11Methods in
+theorem C11_methodset_readableSet : methods_readableSet =
+    [("Any", "readableSet", 0), ("Clear", "OrderedMap", 2), ("Clone", "readableSet", 0),
+     ("Decode", "SerializableOrderedMap", 1), ("Delete", "OrderedMap", 2), ("Encode", "SerializableOrderedMap", 1),
+     ("Equals", "readableSet", 0), ("Filter", "readableSet", 0), ("ForEach", "readableSet", 0),
+     ("ForEachReverse", "OrderedMap", 2), ("Get", "OrderedMap", 2), ("Has", "OrderedMap", 2),
+     ("HasAll", "readableSet", 0), ("Head", "OrderedMap", 2), ("Intersect", "readableSet", 0),
+     ("Is", "readableSet", 0), ("IsEmpty", "OrderedMap", 2), ("Iterator", "readableSet", 0),
+     ("Range", "readableSet", 0), ("Set", "OrderedMap", 2), ("Size", "OrderedMap", 2),
+     ("String", "readableSet", 0), ("Tail", "OrderedMap", 2), ("ToSlice", "readableSet", 0)] ∧
+    ambiguous_readableSet = [] ∧ unresolved_readableSet = [] ∧ hidden_readableSet = ["OrderedMap.Clone@2", "OrderedMap.ForEach@2"] := by decide
+
+open Hive.Gen.C11Methods in
+theorem C11_methodset_SerializableOrderedMap : methods_SerializableOrderedMap =
+    [("Clear", "OrderedMap", 1), ("Clone", "OrderedMap", 1), ("Decode", "SerializableOrderedMap", 0),
+     ("Delete", "OrderedMap", 1), ("Encode", "SerializableOrderedMap", 0), ("ForEach", "OrderedMap", 1),
+     ("ForEachReverse", "OrderedMap", 1), ("Get", "OrderedMap", 1), ("Has", "OrderedMap", 1),
+     ("Head", "OrderedMap", 1), ("IsEmpty", "OrderedMap", 1), ("Set", "OrderedMap", 1), ("Size", "OrderedMap", 1),
+     ("Tail", "OrderedMap", 1)] ∧
+    ambiguous_SerializableOrderedMap = [] ∧ unresolved_SerializableOrderedMap = [] ∧ hidden_SerializableOrderedMap = [] := by decide
+
+open Hive.Gen.C11Methods in
+theorem C11_methodset_OrderedMap : methods_OrderedMap =
+    [("Clear", "OrderedMap", 0), ("Clone", "OrderedMap", 0), ("Delete", "OrderedMap", 0),
+     ("ForEach", "OrderedMap", 0), ("ForEachReverse", "OrderedMap", 0), ("Get", "OrderedMap", 0),
+     ("Has", "OrderedMap", 0), ("Head", "OrderedMap", 0), ("IsEmpty", "OrderedMap", 0), ("Set", "OrderedMap", 0),
+     ("Size", "OrderedMap", 0), ("Tail", "OrderedMap", 0)] ∧
+    ambiguous_OrderedMap = [] ∧ unresolved_OrderedMap = [] ∧ hidden_OrderedMap = [] := by decide
+
+/-- **Nothing outside `set` can name `applyMutex`.**  The go/ast reading of every method body reachable through the
+method sets of the embedded types (`readableSet`, `SerializableOrderedMap`, `OrderedMap`): no lock call on, and no other
+mention of, a field called `applyMutex`.  So a selector that resolves below `set` never takes the lock. -/
+theorem C11_methodset_applymutex_confined :
+    Hive.Gen.C11Methods.applymutex_readableSet.all (fun p => p.2 == []) = true ∧
+    Hive.Gen.C11Methods.applymutex_SerializableOrderedMap.all (fun p => p.2 == []) = true ∧
+    Hive.Gen.C11Methods.applymutex_OrderedMap.all (fun p => p.2 == []) = true := by decide
+
+/-- **The per-method table "takes `applyMutex`: R / W / not at all"**, computed from the regenerated method set of `set`
+and the regenerated lock skeleton of the DECLARING method of each entry (`modeOfSkel`: the lock is the first action and its
+release the `defer` right behind it, or the field is never mentioned; anything else would be `bad`).  `Add`, `AddAll`,
+`Delete`, `DeleteAll` hold it shared, `Apply`, `Compute`, `Replace` exclusively; every other selectable method — the whole
+read side, `Clear`, `Set`, `Get`, `Encode`, `Decode` (promoted from the ordered map) and the helper `apply` — does not
+touch it.  This is the table behind the reading "single-element operations next to bulk operations" in design/C11.md:
+`Add`/`Delete` are serialised with the bulk operations, `Has`/`Size`/iteration are not.  The second conjunct: the
+method-set tool's own reading of the bodies (any receiver name, also `TryLock` and non-call mentions) agrees. -/
+theorem C11_applymutex_table :
+    modeTable Hive.Gen.C11Methods.methods_set =
+      [("Add", "set", some .R), ("AddAll", "set", some .R), ("Any", "readableSet", some .none), ("Apply", "set", some .W),
+       ("Clear", "OrderedMap", some .none), ("Clone", "readableSet", some .none), ("Compute", "set", some .W),
+       ("Decode", "SerializableOrderedMap", some .none), ("Delete", "set", some .R), ("DeleteAll", "set", some .R),
+       ("Encode", "SerializableOrderedMap", some .none), ("Equals", "readableSet", some .none),
+       ("Filter", "readableSet", some .none), ("ForEach", "readableSet", some .none),
+       ("ForEachReverse", "OrderedMap", some .none), ("Get", "OrderedMap", some .none), ("Has", "OrderedMap", some .none),
+       ("HasAll", "readableSet", some .none), ("Head", "OrderedMap", some .none), ("Intersect", "readableSet", some .none),
+       ("Is", "readableSet", some .none), ("IsEmpty", "OrderedMap", some .none), ("Iterator", "readableSet", some .none),
+       ("Range", "readableSet", some .none), ("ReadOnly", "set", some .none), ("Replace", "set", some .W),
+       ("Set", "OrderedMap", some .none), ("Size", "OrderedMap", some .none), ("String", "readableSet", some .none),
+       ("Tail", "OrderedMap", some .none), ("ToSlice", "readableSet", some .none), ("apply", "set", some .none)] ∧
+    Hive.Gen.C11Methods.applymutex_set.map (fun p => (p.1, modeOfUse p.2)) =
+      (modeTable Hive.Gen.C11Methods.methods_set).map (fun t => (t.1, t.2.2.getD .bad)) := by decide
+
+/-- **No method re-enters `applyMutex`, and the unlocked helper is only reached under the write lock** — derived from the
+regenerated facts, not from a literal comparison.  For every method declared on `set`: each call it makes on its own
+receiver (`call s.X` in its skeleton, callbacks included) resolves through the regenerated method set; if it resolves to
+another method declared on `set`, that method's skeleton never mentions `applyMutex`, and so on transitively
+(`reentryFree`; methods declared below `set` cannot name the field, `C11_methodset_applymutex_confined`).  The pre-fix
+`DeleteAll` (callback calls `s.Delete`, mode `R`) and an `AddAll` whose callback calls `s.Add` fail exactly this.  And every
+method whose skeleton calls `s.apply` (the helper that writes without locking) holds the lock exclusively. -/
+theorem C11_no_reentrant_applymutex :
+    (Hive.Gen.C11Methods.methods_set.filter (fun m => m.2.1 == "set")).all (fun m => reentryFree 8 m.1) = true ∧
+    (Hive.Gen.C11Methods.methods_set.filter (fun m => m.2.1 == "set")).all (fun m =>
+      match skelTable.lookup ("set", m.1) with
+      | some sk => !(selfCalls (receiverOf m.1) sk).contains "apply" || modeOfSkel sk == .W
+      | none => false) = true := by decide
+
+/-- the old `DeleteAll` skeleton is rejected by the same reading: `s.Delete` resolves to `set.Delete`, which takes the lock -/
+example : (selfCalls "s" ["rlock s.applyMutex", "defer runlock s.applyMutex", "func{", "call s.Delete", "}func"]).all (fun path =>
+    match resolveOnSet path with
+    | some (decl, n) => decl != "set" || (skelTable.lookup ("set", n)).map modeOfSkel == some AMode.none
+    | none => false) = false := by decide
+
+/-- **Every selectable method is one of the modelled lock scripts.**  For every entry of the regenerated method sets of
+`set` and `OrderedMap` (hence of the two types in between) there is a list of `Call`s — the alphabet of `methodScript`, over
+which `C11_deadlock_free_methods` (no deadlock for any pool of goroutines running any sequences of calls on any sets) and
+`C11_apply_atomic` quantify — and what the model says about `applyMutex` for those calls (`Call.isAtomic` ⇒ all writes
+under the exclusive lock, `Call.isMutator` ⇒ under the shared lock, readers and direct map calls: not at all) is what the
+regenerated skeleton of the declaring method does.  A new method, or one that moves to another declaring type, has no
+entry and breaks this obligation. -/
+theorem C11_methodset_modelled :
+    (Hive.Gen.C11Methods.methods_set ++ Hive.Gen.C11Methods.methods_OrderedMap).all (fun m =>
+      (modelOf (m.2.1, m.1)).isSome &&
+      (modelOf (m.2.1, m.1)).map modeOfCalls == (skelTable.lookup (m.2.1, m.1)).map modeOfSkel) = true := by decide
+
+example : modeOfCalls [.apply 1 1 1 [true]] = .W ∧ modeOfCalls [.deleteAll 0 [true, false]] = .R ∧
+    modeOfCalls [.reader 3, .mapSet, .clear] = .none := by decide
 
 end Hive.OMap
